@@ -130,6 +130,21 @@ class Source:
     def span(s, node):
         return "%s:%d-%d" % (s.path_of(node) or getattr(node, '_pvc_path', '?'), node.lineno, getattr(node, 'end_lineno', node.lineno))
 
+    def attrs_switch_refs(s):
+        """AST scan: every reference in the package to the process-global attrs validator switch (`attr.validators.set_disabled`,
+        `attr.set_run_validators`, `attr.validators.disabled()`), however imported"""
+        out = []
+        for path, m in s.mods.items():
+            for n in ast.walk(m):
+                hit = None
+                if isinstance(n, ast.Attribute) and n.attr in ('set_disabled', 'set_run_validators'): hit = ast.unparse(n)
+                elif isinstance(n, ast.Attribute) and n.attr == 'disabled' and ast.unparse(n.value).endswith('validators'): hit = ast.unparse(n)
+                elif isinstance(n, ast.Name) and n.id in ('set_disabled', 'set_run_validators'): hit = n.id
+                elif isinstance(n, ast.ImportFrom) and any(a.name in ('set_disabled', 'set_run_validators', 'disabled') for a in n.names) and (n.module or '').startswith(('attr', 'attrs')):
+                    hit = ast.unparse(n)
+                if hit: out.append((path, getattr(n, 'lineno', 0), hit[:80]))
+        return sorted(set(out))
+
     def writes_to_field(s, field):
         """AST scan: every `<expr>.<field> = ...` / augmented assignment in the package (class invariants rely on none)"""
         out = []
